@@ -94,11 +94,12 @@ theorem nftTransfer_dest_exact (env : Env) (c : Call) (ctx ctx' : Ctx) (out : VM
     in any order (a failed delivery turns the message into a refund message) and refunds (flagged return-after-error,
     executed on the origin shard), the per-key supply
         Σ_shards Σ_accounts decoded balance under the key  +  Σ_in-flight messages for the key, amount
-    is invariant — for every storage-level token key, well-formed or not.  Hypotheses: account lists without duplicate
-    addresses, messages between different shards (the invariant `WorldInv`, preserved), transactions not sent by the system
-    account nor to oneself, stored values shorter than 2^63 bytes along the run. -/
+    is invariant — for every storage-level token key, well-formed or not.  Hypotheses, all on the INITIAL world and on the
+    transactions: account lists without duplicate addresses, messages between different shards (the invariant `WorldInv`,
+    preserved), stored values shorter than 2^63 bytes (preserved: `nstep_short`), transactions not sent by the system
+    account nor to oneself. -/
 theorem conservation_history (e : Env) (steps : List NStep) (w : NWorld) (hI : WorldInv e w)
-    (hok : ∀ s ∈ steps, NStepOK s) (hS : ShortAlongW e steps w) (k : Bytes) :
+    (hok : ∀ s ∈ steps, NStepOK s) (hS : ShortW w) (k : Bytes) :
     supply (nrun e steps w) k = supply w k :=
   (nrun_supply e steps w hI hok hS k).1
 
